@@ -527,7 +527,8 @@ class SymArray(rnp.ndarray):
 
     def tolist(self):
         if has_sym(self):
-            raise Unsupported("tolist of symbolic array")
+            # nested lists of the entries themselves (symbolic entries stay proxies: a later `if` on one of them forks the path)
+            return rnp.ndarray.tolist(self.view(rnp.ndarray))
         return to_plain(self).tolist()
 
     def item(self, *a):
